@@ -2,7 +2,8 @@
 
 Lean: Props/C08.lean (C08 : C08_statement; rem_nonneg, complete_trip_home_fits, step_decision,
 day_rem_nonneg, day_budget, budget_daylight, day_budget_workday, day_visits, crews_used,
-weather_visited, checkWeather_iff, weather_unworkable, one_report_per_request,
+weather_visited, checkWeather_iff, weather_unworkable, one_report_per_request, configured_crews_bound,
+methodCrews_table,
 step_budget_fractional, budget_daylight_fractional, out_reqOk, day_unit_free; table obligations
 crew_no_cross_case_state, pickle_roundtrip_order over Generated/CrewCost.lean).
 Tie: the REAL Method.survey_site on every integer tuple R<=24, S<=8, T<=4, P<=S x deployment type x
@@ -23,7 +24,7 @@ from harness import core
 from harness.props import _crew_common as CC
 
 MANIFEST_ENTRY = {
-    "text": "Lean theorem C08 proves, for every method description, day budget, crew count and work plan (any number of requests with any survey/travel times, partial progress and per-site weather), by induction over the loop of deploy_crews: every crew's remaining minutes stay >= 0; the minutes charged to a crew over its visits (travel + survey) plus its trip home never exceed the budget (day_budget), which is 60*min(workday, daylight) when daylight is considered (budget_daylight, day_budget_workday; fractional-hour version over any ordered field: step_budget_fractional, budget_daylight_fractional); a completed or partial survey leaves the trip home (complete_trip_home_fits); no more crews are used than the method has (crews_used); a site is visited only if temperature, wind and precipitation are all inside the envelope (weather_visited, checkWeather_iff) and an unworkable site's report is unchanged and re-queued (weather_unworkable); every planned request gets exactly one report (one_report_per_request); the reports handed back unfinished are again admissible requests, so the day theorems iterate over all days (out_reqOk); the daylight cap is part of C08_statement; the loop is homogeneous in the unit of time (day_unit_free), so instances with fractional minutes are integer instances in a finer unit. Table obligations regenerated from /repo on every run: no function of the modelled modules mutates a class-/module-level container or is cached (crew_no_cross_case_state), __reduce__/_reconstruct argument orders agree (pickle_roundtrip_order); same-process history (colliding names/ids/dates, both orders, fresh process), shared-input construction, boundary dates, real travel-time shapes and pickling round trips are exercised against the real code. The model is tied on every run to the real Method.survey_site (exhaustive on R<=24,S<=8,T<=4,P<=S x deployment type x weather outcome), to multi-day continuations, to the real Method/ComponentLevelMethod.deploy_crews for all four method classes, to the real daylight and weather lookup code, and the property's clauses are evaluated directly on the implementation outputs; whole simulations add the same clauses on wrapper traces.",
+    "text": "Lean theorem C08 proves, for every method description, day budget, crew count and work plan (any number of requests with any survey/travel times, partial progress and per-site weather), by induction over the loop of deploy_crews: every crew's remaining minutes stay >= 0; the minutes charged to a crew over its visits (travel + survey) plus its trip home never exceed the budget (day_budget), which is 60*min(workday, daylight) when daylight is considered (budget_daylight, day_budget_workday; fractional-hour version over any ordered field: step_budget_fractional, budget_daylight_fractional); a completed or partial survey leaves the trip home (complete_trip_home_fits); no more crews are used than the method has (crews_used), and a mobile method configured with a positive crew_count has exactly that many crews whatever LDAR-Sim's own estimate, so crews deployed <= crew_count and crew-minutes <= crew_count x budget (methodCrews, configured_crews_bound, methodCrews_table); a site is visited only if temperature, wind and precipitation are all inside the envelope (weather_visited, checkWeather_iff) and an unworkable site's report is unchanged and re-queued (weather_unworkable); every planned request gets exactly one report (one_report_per_request); the reports handed back unfinished are again admissible requests, so the day theorems iterate over all days (out_reqOk); the daylight cap is part of C08_statement; the loop is homogeneous in the unit of time (day_unit_free), so instances with fractional minutes are integer instances in a finer unit. Table obligations regenerated from /repo on every run: no function of the modelled modules mutates a class-/module-level container or is cached (crew_no_cross_case_state), __reduce__/_reconstruct argument orders agree (pickle_roundtrip_order); same-process history (colliding names/ids/dates, both orders, fresh process), shared-input construction, boundary dates, real travel-time shapes and pickling round trips are exercised against the real code. The model is tied on every run to the real Method.survey_site (exhaustive on R<=24,S<=8,T<=4,P<=S x deployment type x weather outcome), to multi-day continuations, to the real Method/ComponentLevelMethod.deploy_crews for all four method classes, to the real daylight and weather lookup code, and the property's clauses are evaluated directly on the implementation outputs; whole simulations add the same clauses on wrapper traces.",
     "design_ref": "DESIGN.md 5.8, 4.2",
     "note": "trusted: Lean kernel + propext/Classical.choice/Quot.sound; the hand-written model (tied by exhaustive/sampled correspondence, not proof); harness adapters and stubs (StubSite, synthetic weather cube, stub ephem); minutes are integers in the theorems of the day loop; fractional minutes are covered by homogeneity (day_unit_free) + step-level theorems over ordered fields, and tied by the fractional-daylight stage with exact Fractions (float rounding of non-dyadic daylight hours is outside); sampled travel times are inputs; the interplay with the queue over several days (request really served again) belongs to C07",
     "technique": "Lean 4 invariant proof over the deploy_crews loop + exhaustive/differential correspondence with the real classes + direct oracle",
@@ -119,7 +120,17 @@ def oracle_day(ctx, case, r, check_requeue=True):
     measure_req_ok(ctx, case, r)
     (cls, stationary, cost_type, unit_cost, budget, crews, consider_weather, reqs) = case[:8]
     inp = {"day": CC.case_json(case)}
-    n_crews = 1 if stationary else crews
+    # the crews the method has BY ITS CONFIGURATION (crew_count; the documented estimate only when
+    # crew_count is 0) -- never what the Method object reports about itself
+    n_crews = C.configured_crews(case)
+    if len(r.crews) != n_crews:
+        ctx.violate("C08:day:method-has-other-than-configured-crews",
+                    "the method was built with a number of crews different from the configured crew_count "
+                    "(%d crew reports, configuration gives %d)" % (len(r.crews), n_crews), inp)
+    total_minutes = sum(sum(C.crew_ghost(r.trace, cid)) for cid in {t["crew"] for t in r.trace})
+    if total_minutes > n_crews * budget:
+        ctx.violate("C08:day:crew-minutes-exceed-configured-crews-x-budget",
+                    "crew-minutes worked in the day (travel + survey + trips home) exceed configured crews x day budget", inp)
     reqs = [C.req_fields(q) for q in reqs]
     by_site = {("s%d" % q[0]): q for q in reqs}
     # per-crew minutes incl. trip home
@@ -447,6 +458,49 @@ def stage_travel_shapes(ctx):
                                 dict(inp, R=R, travel=T, today=today, rem=crew.day_time_remaining))
 
 
+def stage_crew_count(ctx):
+    """how many crews a method is built with, through the REAL constructors of all four classes:
+    configured crew_count below / equal to / above LDAR-Sim's own estimate (a positive crew_count must
+    win in every case), crew_count 0 (the documented estimate is used), follow-up methods (estimate 1),
+    stationary methods (one pseudo crew).  Expectation from the configuration; model = methodCrews."""
+    from harness.adapters import crew as C
+
+    cases = []
+    for pf in CC.PORTFOLIOS:
+        for configured in (0, 1, 2, 3, 5, 7, 9, 20):
+            for follow_up in (False, True):
+                for stationary in (False, True):
+                    cases.append((stationary, follow_up, configured, pf))
+    if ctx.quick:
+        ctx.rng.shuffle(cases)
+        cases = cases[:120]
+    model = core.LeanDriver("drv_crew").run([C.crews_line(*c) for c in cases])
+    for c, ml in zip(cases, model):
+        (stationary, follow_up, configured, pf) = c
+        est = C.crew_estimate(pf)
+        for cls in CC.CLASSES:
+            inp = {"crew_count": {"cls": cls, "stationary": stationary, "follow_up": follow_up, "configured": configured,
+                                  "portfolio": pf, "ldar_sim_estimate": est}}
+            got = CC.guarded(ctx, "crew.count/" + cls, inp, lambda: C.impl_crews(cls, stationary, follow_up, configured, pf))
+            if got is None:
+                continue
+            n, ids = got
+            ctx.evaluations += 1
+            if str(n) != ml:
+                ctx.disagree("crew.count/" + cls, inp, ml, str(n))
+            rel = "stationary" if stationary else "zero" if configured == 0 else \
+                "below-estimate" if configured < est else "equal-estimate" if configured == est else "above-estimate"
+            ctx.count("crew-count:" + rel)
+            ctx.nontrivial.add(("crew-count", cls, rel, follow_up))
+            inp["built_with"] = n
+            if not stationary and configured > 0 and (n != configured or ids != list(range(configured))):
+                ctx.violate("C08:crews:configured-crew-count-not-used" + (":shortage" if configured < est and not follow_up else ""),
+                            "a method configured with a positive crew_count is built with a different number of crews", inp)
+            if stationary and n != 1:
+                ctx.violate("C08:crews:stationary-not-one-crew", "a stationary method has other than one pseudo crew", inp)
+    ctx.traces += len(cases)
+
+
 def stage_budget(ctx):
     from harness.adapters import crew as C
 
@@ -636,7 +690,10 @@ def run(ctx):
                 "holds; campaigns: 3..12 consecutive real deploy_crews days on the same planners (reports carried over by "
                 "the real code, plan order from the real schedule update), each day also run through the model; crew days: "
                 "random work plans in three sizes x 4 method classes x cost types, crews 0..5, partial reports, exact-fit "
-                "surveys, weather triples inside / on / outside each envelope bound; fractional: daylight-sensitive days with "
+                "surveys, weather triples inside / on / outside each envelope bound, a third of the mobile days on methods "
+                "constructed for a portfolio whose LDAR-Sim crew estimate is below / equal to / above the configured "
+                "crew_count (shortage), follow-up and crew_count-0 (estimate) methods; crew count: real constructors x 7 "
+                "portfolios x crew_count 0..20 x follow-up x stationary; fractional: daylight-sensitive days with "
                 "daylight hours p/100, p/7, p/13 as exact Fractions and non-empty plans, the model fed in units of 1/q "
                 "minute; budget: workday x daylight in 0..24 "
                 "and quarter-hour daylight through the real daylight calculator; weather: real lookup cubes with unsorted "
@@ -646,8 +703,11 @@ def run(ctx):
 
     regenerate_tables(ctx)
     core.lean_stage(ctx, MODULE, FILE, drivers=["drv_crew"])
+    from harness.props import _tie
+    _tie.crew_tie(ctx)  # layer 3: Method.survey_site, translated from the current source, is Crew.surveyStep/applyStep
     stage_steps(ctx)
     stage_multiday(ctx)
+    stage_crew_count(ctx)
     stage_days(ctx)
     stage_campaigns(ctx)
     stage_history(ctx)
@@ -729,6 +789,16 @@ def replay(ctx, data):
         from harness.props import _crew_history as H
 
         H.replay(ctx, "C08", inp)
+    elif "crew_count" in inp:
+        c = inp["crew_count"]
+        n, ids = C.impl_crews(c["cls"], c["stationary"], c["follow_up"], c["configured"], c["portfolio"])
+        print("configured crew_count", c["configured"], "| LDAR-Sim estimate", C.crew_estimate(c["portfolio"]),
+              "| method built with", n, "crews, ids", ids, "| model:",
+              core.LeanDriver("drv_crew").run([C.crews_line(c["stationary"], c["follow_up"], c["configured"], c["portfolio"])])[0])
+        if not c["stationary"] and c["configured"] > 0 and (n != c["configured"] or ids != list(range(c["configured"]))):
+            ctx.violate("C08:crews:configured-crew-count-not-used", "configured crew_count not used", inp)
+        if c["stationary"] and n != 1:
+            ctx.violate("C08:crews:stationary-not-one-crew", "stationary", inp)
     elif "weather" in inp:
         replay_weather(ctx, inp["weather"])
     elif "wholerun" in inp:
